@@ -3,13 +3,13 @@ module verif.local/harness
 go 1.18
 
 require (
+	github.com/bmatcuk/doublestar/v4 v4.8.0
 	github.com/fatih/color v1.18.0
 	github.com/rhysd/actionlint v0.0.0
 	gopkg.in/yaml.v3 v3.0.1
 )
 
 require (
-	github.com/bmatcuk/doublestar/v4 v4.8.0 // indirect
 	github.com/mattn/go-colorable v0.1.14 // indirect
 	github.com/mattn/go-isatty v0.0.20 // indirect
 	github.com/mattn/go-runewidth v0.0.16 // indirect
